@@ -82,6 +82,22 @@ CLAIMS = {
         text="Bounded, helper level only: Reader::try_fill from every reader state over a 4-octet buffer (start <= end symbolic, contents symbolic) for targets 1, 4, 6: indices never leave the buffer, octets preserved in order, Ok(true) iff the target is available; parse_escape on all 2^24 three-octet continuations and on short inputs; generic RDATA hex digits (4 symbolic octets); parse_type rejects NULL in all 16 case mixes; no panic in any of these.",
         note="The whole-file part of the property (totality for arbitrary bytes, nothing after the first error, validity of every yielded record) could NOT be encoded within reach: CBMC does not constant-fold io::Result<Option<u8>> returns, so every reader call result is symbolic and the whole parser is explored on every path; a 1-octet input ran out of memory at 6-10 GB, a concrete 12-octet record line did not finish. C23 is not claimed for the same reason. Stub S6 (alloc::fmt::format).",
         ref="DESIGN.md A4.2, B-C24"),
+    "C10": dict(
+        text="Bounded, function level, HMAC abstracted (stub S5 = recording MAC): find_tsig_algorithm_or_write_error, find_tsig_key_or_write_error and verify_tsig_and_write_tsig_rr called on a ReadTsigRr parsed from a small concrete request with symbolic ID/flags/QTYPE/QCLASS/time/fudge/MAC octets, followed (for the unsigned outcomes) by finish_with_mac and the independent decoder: unknown algorithm or key -> NOTAUTH / BADKEY / empty MAC; MAC mismatch -> NOTAUTH / BADSIG / empty MAC for all times; MAC size outside [max(10, out/2), out] -> FORMERR with no MAC computed; in all of these no answer/authority data, TSIG RR last with class ANY, TTL 0, owner = key name, request algorithm and original ID, time = server time, fudge 300. For match / bad-time outcomes: the helper's return value, RCODE and the tag and digest of the request-side MAC check (times at T0 +- 300 / 301). ReadTsigRr::try_from: FORMERR iff class != ANY or TTL != 0 (all values). check_time and check_mac_size over their whole domains.",
+        note="Stubs: S1 (HashMap model), S5/S5a/S5b (recording MAC; Algorithm::name as static views proven equal; Algorithm::from_name as octet-wise case-insensitive compare - the real lazy_static lookup is not decided), S9 (TimeSigned::to_unix_time as shift/or, proven equal over 2^48), S11 (new_boxed_name initialised octet by octet). NOT decided: the MAC of signed responses through finish_with_mac (NOERROR and BADTIME cases; 57 min without result) - covered piecewise by C11's sign_response harnesses; key lookup in a non-empty key map (40 min); whole handle_message TSIG shapes. Counterexamples of stubbed harnesses cannot be replayed natively (kani::stub is not applied in playback): such a failure is reported as inconclusive (exit 2), not as VIOLATION.",
+        ref="DESIGN.md A4.2, B-C10"),
+    "C11": dict(
+        text="Bounded, HMAC abstracted by a recording MAC (S5): for sign_request / sign_response / sign_subsequent with a symbolic 12-octet header (ARCOUNT >= 1), bodies of 0/5/9 symbolic octets, symbolic key, original ID, 48-bit time, fudge, error (incl. BADTIME with other data) and request/prior MACs of 0/20/32 octets: the octet stream fed to the MAC equals the harness's own RFC 8945 4.3 stream octet for octet (every covered message octet unchanged at a symbolic index, ARCOUNT-1, original ID), exactly one MAC computation, and the produced TSIG RDATA validates and carries the same fields; verify_request/response/subsequent return Ok exactly when the MAC size is in [max(10,out/2), out], the MAC is a prefix of the model MAC and |now - time| <= fudge, with error order FORMERR, BADSIG, BADTIME; check_time and check_mac_size over their whole domains (2^48 x 2^16 x 2^48; 2 x 2^16).",
+        note="HMAC-SHA1/256 themselves are trusted (inline asm, not analysable); 'changing any covered octet makes verification fail' is decided as coverage (every covered octet reaches the MAC input unchanged). Bodies > 9 octets, keys other than 2 octets, more than one key are outside. Stubs S5, S5a, S9, S11.",
+        ref="DESIGN.md A4.2, B-C11"),
+    "C18": dict(
+        text="Bounded: (ii) Rdata::validate accepts exactly what reference validators written from RFC 1035 3.3/3.4, 1034 3.6, 2782, 3596, 6891, 8945 accept, for EVERY class x type (2^32) and every RDATA of length 0..=8 (12 thorough), SOA 0..=25, TSIG 0..=21, fixed-size types 0..=17, all octets symbolic; (i) Rdata::read vs the reference on small messages with symbolic octets, symbolic cursor (0..=N+1) and ALL u16 RDLENGTH values for the non-decompressing types (N=8, N=18 for AAAA/TSIG) and, thorough, for NS/MD/MF/CNAME/MB/MG/MR/PTR on every 3-octet message: never panics, UnexpectedEom iff cursor+RDLENGTH > N, acceptance iff reference, result octets equal the reference's decompressed RDATA and validate; MX/SRV/CH-A/MINFO/SOA through label+pointer skeletons with exact and off-by-one RDLENGTH; RDLENGTH ending exactly where an embedded name starts gives an error, not a panic.",
+        note="(iii) write->read round trip is NOT built (writer + compressor + reader on top of Name objects did not fit). Symbolic cursor/RDLENGTH for MX, CH A, MINFO, SRV, SOA readers only via concrete skeletons (symbolic RDLENGTH diverged: 25 min). Name/label length limits (255/63) not reached here (C14/C16). Stub S7.",
+        ref="DESIGN.md A4.2, B-C18"),
+    "C19": dict(
+        text="Bounded: Rdata::equals(a, b) == an independent reference equality (both well formed for the type -> fixed fields octet-equal and embedded names equal ignoring ASCII case; otherwise octet equality) in both argument orders, plus symmetry, reflexivity and (triples) transitivity stated separately, for RDATA pairs of independent concrete lengths with all octets symbolic: NS lengths (3,3),(3,4) quick and the full grid {0,1,3,4,5}^2 thorough; MD/MF/CNAME/MB/MG/MR/PTR (3,3),(3,4); MX, CH A (5,5), MINFO (4,4), short/unequal lengths for MX/SRV/CH A/MINFO, skeleton pairs for SOA/MINFO/NS/SRV; every class x type (2^32) outside the table is octet equality; RdataSetOwned::from_iter/insert keep the first member of each equality class in insertion order (three IN A RDATA; two NS RDATA thorough).",
+        note="Stub S10: <[u8]>::eq_ignore_ascii_case (std) replaced by a per-octet loop, checked against the real function on 3 and 18 octets. Fully symbolic SRV (9,9) and SOA (22,22) pairs and three NS RDATA through insert exceed 13 GB and are covered by skeleton pairs only; names longer than 5 octets skeleton-only; TYPE concrete in name-reaching harnesses.",
+        ref="DESIGN.md A4.2, B-C19"),
 }
 
 GENERIC = dict(
